@@ -32,7 +32,10 @@ flock 9
 if [ -f "$OUT/libcsd.a" ] && [ -f "$OUT/.ok" ]; then touch "$OUT"; echo "$OUT"; exit 0; fi
 # keep only the three most recently used builds of other trees of this flavour (disk is limited; a check on another
 # tree may still be running from one of them)
-ls -1dt "$VERIF/build/$FLAV"/*/ 2>/dev/null | grep -v "/$H/" | tail -n +4 | xargs -r rm -rf
+ls -1dt "$VERIF/build/$FLAV"/*/ 2>/dev/null | grep -v "/$H/" | tail -n +7 | while read -r d; do
+  # never remove a build used within the last 4 hours: a long (thorough) check may still be running from it
+  if [ -z "$(find "$d" -maxdepth 0 -mmin -240)" ]; then rm -rf "$d"; fi
+done
 rm -rf "$OUT"; mkdir -p "$OUT/obj"
 
 # source lists: every "*.cpp" token of the two CMakeLists that is inside a set(..._srcs ...) block
